@@ -70,6 +70,13 @@ var propInfo = map[string]struct {
 			"NOT covered: re-association of + and * chains (tryReorderBinaryOp, isBinaryOpExprAllValue), folding of constant function calls (tryOptimizeFunctionCall: assumed thin contract), and the composition over the whole tree (in-place mutation of a tree needs an ownership argument outside this contract language)",
 			"floats are uninterpreted: no claim about IEEE rounding of re-associated chains (outside the property by its own quantifier)",
 		}},
+	"C10": {"proof",
+		"Row forms, proved on the real code against the one-line descriptions of the README: the coercions toString / toInt / toFloat (an integer renders in decimal - fmt's %d is strconv's decimal rendering -, decimal text reads back as that integer / float, text stays text), str / int / float / is_int / is_float / strlen (byte count) on the value of their argument with exact definedness, substr (the bytes from start up to end, both clamped; D6 repaired), len (element count of every list representation: []string, []int64, []float64, [][]byte, []any; D17 repaired) and byte count of a text, int_list / float_list (arguments in order: ghost index), indexing with [n] (element n of []any / []string / []int64 / []float64; D17 repaired), and l2_distance / cosine_distance refusing vectors of different lengths.",
+		[]string{
+			"NOT covered: upper / lower (case mapping is strings.ToUpper / ToLower: T-STD), split / join and their inverse relation (needs a theory of strings.Split / Join), list() dispatch on its first argument, the numeric value of the distances (uninterpreted floats), json() parsing and dictionary access (encoding/json is external), and the vector (batch) forms of all functions (C03)",
+			"T-STD: strconv.ParseInt(strconv.Itoa(i)) == i (axiom), fmt.Sprintf(\"%d\", i) == strconv.Itoa(i) for integer values",
+			"int('abc') returns 0 rather than the documented error: observed, not claimed either way",
+		}},
 	"C14": {"proof",
 		"The type checker (checker.go) is under contract. (1) Operand rules: a nil result of checkWithAndOr / checkWithMath / checkWithCompares / checkWithIn / checkWithBetween / NotExpr.Check / ListExpr.Check / FieldAccessExpr.Check / FieldExpr.Check guarantees the documented rule for that operator (both operands Boolean; both numeric or `+` on two texts, literal division by zero refused; equal types, ordered comparisons on numbers or text, ^= ~= on text; IN elements of the left operand's type or a list-valued call; BETWEEN on text or numbers with two bounds of the same type; ! on a Boolean; lists homogeneous and non-empty; key / value refused where the statement form forbids them), stated over the static result type rtype of the operands. (2) Wherever the fault sits: a nil result of any Check implies (ghost mark chk) that every operand, list item, argument and field-access operand below it was itself checked - proved for BinaryOpExpr, NotExpr, ListExpr, FieldAccessExpr, FunctionCallExpr against the interface contract of Expression.Check, with the in-place alias rewriting (a name replaced by a reference to the select field it denotes) modelled exactly. (3) Check only ever returns SyntaxError values and touches no storage (frames).",
 		[]string{
